@@ -16,6 +16,8 @@ SIG_PATTERNS = ['silence+sig', 'trickle+sig', 'burst_before+sig', 'burst_after+s
 SIG_EVERY, SIG_COST = 0.2371, 0.003
 # unicode mode: reads that hold only a piece of a multi-byte character deliver no text; the deadline still counts
 U8_PATTERNS = ['u8:partial_char', 'u8:partial_then_match', 'u8:byte_trickle']
+# a child that keeps talking to an object whose every read comes back full (maxread=1; maxread=4 against 4-byte writes): the deadline is overall
+MR_PATTERNS = ['trickle@1', 'trickle_then_match@1', 'burst_before@1', 'blocks@4']
 TRANSPORTS = ['pty-select', 'pty-poll', 'fd-select', 'fd-poll', 'socket', 'socket-own', 'popen']     # socket-own: the socket carries its own 0.25 s timeout
 ENTRIES = ['expect', 'expect_exact', 'expect_list', 'expect_loop', 'read_nonblocking']
 TS = [-1, None, 0, 2.0, 0.7]
@@ -71,7 +73,9 @@ class PopenPeer(object):
 def arrivals_for(pattern, Teff, write, finish):
     """list of (dt, action); Teff = the deadline the call will use (None -> 2.0 for placement)"""
     D = 2.0 if Teff is None else Teff
-    pattern = pattern.split('+')[0]
+    pattern = pattern.split('+')[0].split('@')[0]
+    if pattern == 'blocks':
+        return [(0.0931, lambda: write(b'wxyz'))] * 80
     if pattern == 'silence':
         return []
     if pattern == 'trickle':
@@ -144,6 +148,8 @@ def scenario(transport, entry, Targ, pattern, rng=None):
         write, finish = pp.write, pp.exit
         cleanup.append(pp.close)
     try:
+        if '@' in pattern:
+            p.maxread = int(pattern.split('@')[1])
         if pattern == 'immediate':
             write(b'MATCH now')
         reads = []
@@ -196,7 +202,8 @@ def scenario(transport, entry, Targ, pattern, rng=None):
     # within t + (2*size + 5) non-blocking system calls, and raises TIMEOUT only after t
     contract = None
     size = getattr(p, 'maxread', 2000) if entry != 'read_nonblocking' else 100
-    over = (2 * size + 5) * clk.tick + 1e-9
+    # one non-blocking system call costs up to four clock ticks here (the wrappers read the clock around it); poll() rounds its timeout up to a whole millisecond
+    over = (2 * size + 5) * 4 * clk.tick + 1e-9 + (0.001 if transport.endswith('poll') else 0.0)
     if pattern.endswith('+sig'):
         over += SIG_COST + 4 * clk.tick       # Rt.selII_contract: a wait that is interrupted returns within its timeout + one handler run
     for (t0, t1, kind, n, tmo) in reads:
@@ -238,7 +245,7 @@ def oracle(transport, entry, Targ, pattern, r):
     else:
         if out == 'timeout':
             return 'TIMEOUT reported with timeout=None'
-    pattern = pattern.split('+')[0]
+    pattern = pattern.split('+')[0].split('@')[0]
     if entry != 'read_nonblocking':
         if pattern == 'immediate' and out != 'hit' and not (Teff is not None and Teff < 0):
             return 'text that was already readable was not examined (timeout %s): %s' % (Teff, out)
@@ -289,7 +296,14 @@ def stage_virtual(ctx, stats, sigs):
                     if tr == 'popen' and Ta is None and en == 'read_nonblocking':
                         continue
                     u8_combos.append((tr, en, Ta, pa))
-    corpus = [('pty-select', 'expect', 0.7, 'u8:partial_char'), ('fd-poll', 'read_nonblocking', 0.7, 'u8:partial_char'), ('fd-select', 'expect_exact', 2.0, 'u8:partial_then_match'),
+    mr_combos = []
+    for tr in TRANSPORTS:
+        for en in ENTRIES[:4]:
+            for Ta in (-1, 2.0, 0.7):
+                for pa in MR_PATTERNS:
+                    mr_combos.append((tr, en, Ta, pa))
+    corpus = [('fd-select', 'expect', 2.0, 'trickle@1'), ('pty-poll', 'expect_exact', 0.7, 'blocks@4'),
+              ('pty-select', 'expect', 0.7, 'u8:partial_char'), ('fd-poll', 'read_nonblocking', 0.7, 'u8:partial_char'), ('fd-select', 'expect_exact', 2.0, 'u8:partial_then_match'),
               ('socket-own', 'expect', None, 'match_mid'), ('socket-own', 'read_nonblocking', None, 'match_mid'), ('socket-own', 'expect_exact', 2.0, 'match_mid'),
               ('pty-select', 'expect', 2.0, 'trickle'), ('socket', 'expect', 0, 'silence'), ('socket', 'expect', 0, 'immediate'),
               ('popen', 'expect', 0, 'immediate'), ('pty-select', 'expect_loop', -1, 'silence'), ('fd-poll', 'expect_list', -1, 'burst_after'),
@@ -297,10 +311,10 @@ def stage_virtual(ctx, stats, sigs):
               ('pty-select', 'expect', -0.5, 'silence'), ('socket', 'expect_exact', -0.5, 'immediate'), ('fd-poll', 'expect_list', -0.5, 'trickle')]
     if ctx.quick():
         rng.shuffle(combos)
-        rng.shuffle(sig_combos); rng.shuffle(u8_combos)
-        combos = corpus + combos[:110] + u8_combos[:25] + [('pty-select', 'expect', 0.7, 'silence+sig'), ('fd-poll', 'expect_exact', 2.0, 'trickle+sig')] + sig_combos[:40]
+        rng.shuffle(sig_combos); rng.shuffle(u8_combos); rng.shuffle(mr_combos)
+        combos = corpus + combos[:110] + u8_combos[:25] + mr_combos[:25] + [('pty-select', 'expect', 0.7, 'silence+sig'), ('fd-poll', 'expect_exact', 2.0, 'trickle+sig')] + sig_combos[:40]
     else:
-        combos = corpus + combos + sig_combos + u8_combos
+        combos = corpus + combos + sig_combos + u8_combos + mr_combos
     results = []
     for (tr, en, Ta, pa) in combos:
         r = scenario(tr, en, Ta, pa, rng)
